@@ -154,6 +154,25 @@ def run(ck, m):
     rng = [norm(n.iter) for n in loops]
     ck.ob("R2", text_if, rng == ["range(new_pad_top)", "image_lines", "range(new_pad_bottom)"], f"rows are yielded as top padding, image rows, bottom padding; found {rng}", stmt="content: top padding, image, bottom padding")
 
+    # slices of the held lines with two explicit offsets `[lo:hi]`: the number of rows taken (hi - lo) must be the number of visible rows
+    # (a count used as the end index is only right while lo == 0); `[lo:-n or None]` counts from the end and is not touched here
+    from tiv import affine as _af
+    vr_def = next((s_ for s_ in ct.body if isinstance(s_, ast.Assign) and any(norm(t_) == "visible_rows" for t_ in s_.targets)), None)
+    for sl in [n for n in body_walk(ct) if isinstance(n, ast.Subscript) and isinstance(n.slice, ast.Slice) and "self._ti_lines" in norm(n.value)]:
+        lo, hi = sl.slice.lower, sl.slice.upper
+        if hi is None or (isinstance(hi, ast.BoolOp) and isinstance(hi.op, ast.Or)) or (isinstance(hi, ast.UnaryOp) and isinstance(hi.op, ast.USub)):
+            continue
+        try:
+            keepv = ("size", "trim_top", "trim_bottom", "image_size", "visible_rows")
+            length = _af._add(_af.poly(trace(ct, hi, use=sl, keep=keepv)), _af.poly(trace(ct, lo, use=sl, keep=keepv)) if lo is not None else {}, -1)
+            want_v = {("visible_rows",): 1} if vr_def is not None else None
+        except _af.NotPoly:
+            length = want_v = None
+        ck.expect(length is not None and want_v is not None, f"content: slice `{short(sl, 50)}` of the held lines not analysable")
+        if length is not None and want_v is not None:
+            ck.ob("R2", enclosing_stmt(sl), length == want_v, f"`{short(sl, 60)}` takes {_af.show(length)} rows; a region shows {_af.show(want_v)} rows (an end index must be start + count, "
+                  "not the count)", stmt=f"content: rows taken by {short(sl, 50)} == visible rows")
+
     # ---- R3 ----------------------------------------------------------------------------
     isz = next((s for s in ct.body if isinstance(s, ast.Assign) and norm(s.targets[0]) == "image_size"), None)
     ck.ob("R3", isz or ct, isz is not None and norm(isz.value) == "self._ti_image_size", f"content() must use the image size recorded with the canvas; found `{norm(isz.value) if isz else None}`", stmt="content: image_size = self._ti_image_size")
